@@ -170,7 +170,8 @@ Definition spec_step (s:sstate) (o:op) : sstate * (out -> bool) :=
   | OReadAll lo hi => with_h s (fun h => (s, lines_or_nothing (select lo hi (sh_lines h))))
   | OReadFirstN n lo hi =>
       with_h s (fun h => (s, if (n =? 0)%N then is_nothing
-                             else lines_or_nothing (firstn (N.to_nat n) (select lo hi (sh_lines h)))))
+                             else let sel := select lo hi (sh_lines h) in
+                                  lines_or_nothing (firstn (N.to_nat (N.min n (len sel))) sel)))
   | OReadN n lo hi => with_h s (fun h => (s, read_n_allowed h n lo hi))
   | ONLines lo hi =>
       with_h s (fun h =>
